@@ -516,7 +516,8 @@ int _vnadata_load_npd(vnadata_internal_t *vdip, FILE *fp, const char *filename)
 			FIELD(&nss, 0));
 		goto out;
 	    }
-	    if (vnadata_set_format(vdp, FIELD(&nss, 1)) == -1) {
+	    if (_vnadata_set_format(vdp, FIELD(&nss, 1), nss.nss_filename,
+			nss.nss_line) == -1) {
 		goto out;
 	    }
 	    parameter_line = nss.nss_line;
